@@ -101,7 +101,7 @@ def run_case(key, argv, files, allowed_names, stdin=b"", env_extra=None, expect_
         for rel, data in files.items():
             p = os.path.join(d, rel)
             os.makedirs(os.path.dirname(p), exist_ok=True)
-            with open(p, "wb") as f: f.write(data)
+            with open(p, "wb") as f: f.write(data.replace(b"@D@", d.encode()))
         before = sorted(os.listdir(d)) + sorted(os.listdir(canary))
         log = os.path.join(d, "sysmon.log")
         argv = [a.replace("@D@", d) for a in argv]
